@@ -1326,7 +1326,28 @@ def _max(I, t, dim=None, keepdim=False):
     """max over all elements of a rank-1 tensor (no dim): a fresh scalar with the assumed contract `upper bound of every entry, attained
     at some entry` (instance builders in ghost['maxes']); max of a one-element tensor is that element"""
     if dim is not None:
-        raise Unsupported("max along a dimension of a symbolic-shape tensor")
+        # max along one dimension: values and indices with the assumed contract `an upper bound of every entry along the dimension,
+        # attained at the reported index` (no tie rule); instance builders in ghost['dim_maxes']
+        d = dim % len(t.shape)
+        out_shape = t.shape[:d] + t.shape[d + 1:]
+        n_, te_ = to_z3(t.shape[d]), t.elem
+        MX = _fresh("max", *([z3.IntSort()] * len(out_shape) + [z3.IntSort() if t.dtype == "long" else z3.RealSort()]))
+        AR = _fresh("argmax", *([z3.IntSort()] * len(out_shape) + [z3.IntSort()]))
+        rng_ = lambda o: z3.And([z3.And(to_z3(i) >= 0, to_z3(i) < to_z3(m)) for i, m in zip(o, out_shape)] or [z3.BoolVal(True)])
+        full = lambda o, j: list(o[:d]) + [j] + list(o[d:])
+        ubd = lambda o, j: z3.Implies(z3.And(rng_(o), j >= 0, j < n_), to_z3(te_(*full(o, j))) <= MX(*o))
+        attd = lambda o: z3.Implies(rng_(o), z3.And(AR(*o) >= 0, AR(*o) < n_, to_z3(te_(*full(o, AR(*o)))) == MX(*o)))
+        ov = [z3.Int("o_max%d" % i) for i in range(len(out_shape))]
+        jv = z3.Int("j_max")
+        I.ex.oblige("max.reduced_dimension_not_empty", n_ >= 1)
+        I.ex.assume(z3.ForAll(ov + [jv], ubd(ov, jv)))
+        I.ex.assume(z3.ForAll(ov, attd(ov)) if ov else attd(ov))
+        I.ex.ghost.setdefault("dim_maxes", []).append({"MX": MX, "AR": AR, "ub": ubd, "att": attd, "n": n_})
+        vals = ST(out_shape, lambda *idx: MX(*[to_z3(i) for i in idx]), t.dtype)
+        idxs = ST(out_shape, lambda *idx: AR(*[to_z3(i) for i in idx]), "long")
+        if keepdim:
+            vals, idxs = _unsqueeze(I, vals, d), _unsqueeze(I, idxs, d)
+        return ct.MinMaxResult(vals, idxs)
     if all(isinstance(x, int) and x == 1 for x in t.shape):
         e1 = t.elem(*([0] * len(t.shape)))
         return ST((), lambda: e1, t.dtype)
@@ -1346,6 +1367,15 @@ def _max(I, t, dim=None, keepdim=False):
 
 METH["masked_fill_"] = _inplace(_masked_fill)
 METH["masked_scatter_"] = _inplace(_masked_scatter)
+
+
+@meth("log_softmax")
+def _log_softmax(I, t, dim=-1, **k):
+    """log_softmax as an UNINTERPRETED element function of the position (arbitrary real values; recorded in ghost['log_softmaxes']):
+    for code whose specification is stated over the normalised scores themselves"""
+    LS = _fresh("log_softmax", *([z3.IntSort()] * len(t.shape) + [z3.RealSort()]))
+    I.ex.ghost.setdefault("log_softmaxes", []).append({"LS": LS, "of": t, "dim": dim % len(t.shape)})
+    return ST(t.shape, lambda *idx: LS(*[to_z3(i) for i in idx]), "float")
 
 
 @meth("all")
